@@ -342,7 +342,8 @@ func c08Sample(t reflect.Type, e *c08Entry, name string, variant int, depth int)
 	case t.Kind() == reflect.Float32 || t.Kind() == reflect.Float64:
 		v.SetFloat(0.25 + float64(variant))
 	case depth > 4:
-		// zero value below this depth
+		// zero value below this depth (fields with a narrowed domain still get a legal value)
+		c08Defaults(v, e, 0)
 	case t.Kind() == reflect.Slice:
 		s := reflect.MakeSlice(t, 1, 1)
 		s.Index(0).Set(c08Sample(t.Elem(), e, name, variant, depth+1))
@@ -514,7 +515,9 @@ func c08Alphabet(l c08Leaf, e *c08Entry, reduced bool) []reflect.Value {
 			out = append(out, reflect.MakeMap(t), mk(2), mk(17))
 		}
 	case t.Kind() == reflect.Ptr:
-		add(nil)
+		if n := len(l.path); n == 0 || (l.path[n-1].kind != 'e' && l.path[n-1].kind != 'm') {
+			add(nil) // contracts never store nil elements inside slices / maps
+		}
 		z := reflect.New(t.Elem())
 		c08Defaults(z.Elem(), e, 0)
 		out = append(out, z)
@@ -774,7 +777,19 @@ func c08Printable(v reflect.Value) any {
 }
 
 // c08RunEntry enumerates all values of one entry.
-func c08RunEntry(e *c08Entry, ei int, pairs bool, col *c08Collector, outcomes map[string]struct{}) (values int64, leaves int) {
+// c08Medium is the full alphabet without the very large values (pair enumeration, thorough tier).
+func c08Medium(l c08Leaf, e *c08Entry) []reflect.Value {
+	var out []reflect.Value
+	for _, v := range c08Alphabet(l, e, false) {
+		if (v.Kind() == reflect.String || v.Kind() == reflect.Slice) && v.Len() > 300 {
+			continue
+		}
+		out = append(out, v)
+	}
+	return out
+}
+
+func c08RunEntry(e *c08Entry, ei int, pairs bool, thorough bool, col *c08Collector, outcomes map[string]struct{}) (values int64, leaves int) {
 	root := c08Root(e, e.New())
 	var ls []c08Leaf
 	c08Leaves(root.Type(), e, nil, "", map[reflect.Type]int{}, 0, &ls)
@@ -811,7 +826,11 @@ func c08RunEntry(e *c08Entry, ei int, pairs bool, col *c08Collector, outcomes ma
 	// the second setting materialises inside / over the first)
 	red := make([][]reflect.Value, len(ls))
 	for i, l := range ls {
-		red[i] = c08Alphabet(l, e, true)
+		if thorough {
+			red[i] = c08Medium(l, e)
+		} else {
+			red[i] = c08Alphabet(l, e, true)
+		}
 	}
 	for i := 0; i < len(ls); i++ {
 		for j := i + 1; j < len(ls); j++ {
@@ -858,7 +877,7 @@ func c08Main() {
 			defer wg.Done()
 			defer func() { <-sem }()
 			oc := map[string]struct{}{}
-			v, l := c08RunEntry(&entries[i], i, true, col, oc)
+			v, l := c08RunEntry(&entries[i], i, true, run.Thorough(), col, oc)
 			results[i] = res{v, l, oc}
 		}(i)
 	}
@@ -881,12 +900,12 @@ func c08Main() {
 	run.Add(int64(len(entries)), total, total)
 	run.Extra["per_type"] = perType
 	run.Extra["registered_types"] = len(entries)
-	run.Rule = "for every registered stored type: the zero value, every serialized leaf position (fields, also inside pointers / one-element slices and maps) set to every value of its kind's boundary alphabet, and every pair of positions set to every pair of a reduced alphabet (3 values per kind); containers themselves take nil / empty / 1 / 2 / 17 elements; each value through the real MarshalMsg / UnmarshalMsg; entity wrappers additionally per registered version and through MigrateFrom; distinct = distinct (type, outcome, encoded length)"
+	run.Rule = "for every registered stored type: the zero value, every serialized leaf position (fields, also inside pointers / one-element slices and maps) set to every value of its kind's boundary alphabet, and every pair of positions set to every pair of a reduced alphabet (3 values per kind; thorough tier: the full alphabets without the very large values); containers themselves take nil / empty / 1 / 2 / 17 elements; each value through the real MarshalMsg / UnmarshalMsg; entity wrappers additionally per registered version and through MigrateFrom; distinct = distinct (type, outcome, encoded length)"
 	run.Bounds["string_alphabet"] = "'', 'a', 31/32/255/256/65536 chars, non-ASCII with NUL and quotes, invalid UTF-8"
 	run.Bounds["int_alphabet"] = "0, +-1, msgpack format boundaries (31/32, -32/-33, 127/128, 255/256, 2^15, 2^16, 2^31, 2^32), 2^53+1, min, max of the field's width"
 	run.Bounds["float_alphabet"] = "0, -0, 1, -1.5, 0.1, 1/3, 1e300, max, smallest, +-Inf, NaN"
 	run.Bounds["container_sizes"] = "nil, 0, 1, 2, 17 elements (elements of pointer type are never nil: contracts do not store nil elements)"
-	run.Bounds["pairs"] = "all pairs of leaf positions x 3x3 reduced values"
+	run.Bounds["pairs"] = map[bool]string{false: "all pairs of leaf positions x 3x3 reduced values", true: "all pairs of leaf positions x the full alphabets without the > 300-byte values"}[run.Thorough()]
 	keys := make([]string, 0, len(col.best))
 	for k := range col.best {
 		keys = append(keys, k)
